@@ -2,9 +2,14 @@
   C11 / C01 (text level) — the header of a unified diff as diff tools write it is read back exactly: names (stripped by -p), time
   stamps, format, and the stream is left at the first hunk; inert filler before the header changes nothing.
 
-  Both statements are proved AS FIRST STATED (no hypothesis added, no conclusion changed); the work is done by
-  `Header.parseHeader_unified` (PatchModel/Lemmas/Header.lean), which also gives `info` and `par'` explicitly
-  (`linesTillFirstHunk = filler.length + 3`, `lineNo + filler.length + 2`, flags clean — also after filler).
+  The work is done by `Header.parseHeader_unified'` (PatchModel/Lemmas/Header.lean), which also gives `info` and `par'`
+  explicitly (`linesTillFirstHunk = filler.length + 3`, `lineNo + filler.length + 2`, flags clean — also after filler).
+
+  STRENGTHENED with the reordering of `headerStep` (the "first body line after a unified range line" test now comes before
+  the keyword tests): as first stated the three round trip theorems assumed that the first line of the first hunk does not
+  start with `--- ` or `+++ ` (such a line — the removal of `-- x`, the addition of `++ y` — was taken for a file header and
+  the first hunk was silently dropped).  That hypothesis is gone: the first body line only has to start with space, `+`
+  or `-`.  `first_hunk_line_like_header` states the fixed case on its own.
   `hterm` (the first body line is terminated) is only used to read that line with `getLine_cons`; the flags it would set
   are cleared by `parseHeader` anyway.
 -/
@@ -35,8 +40,7 @@ theorem unified_header_roundtrip (old new oldt newt : Bytes) (h : Hunk) (first :
     (hold : plainName old) (hnew : plainName new) (hot : oldt ≠ []) (hnt : newt ≠ [])
     (hr : 0 ≤ h.old.start ∧ h.old.start ≤ i64Max / 4 ∧ 0 ≤ h.old.count ∧ h.old.count ≤ i64Max / 4 ∧
           0 ≤ h.new.start ∧ h.new.start ≤ i64Max / 4 ∧ 0 ≤ h.new.count ∧ h.new.count ≤ i64Max / 4)
-    (hfirst : (startsWith first.content " " ∨ startsWith first.content "+" ∨ startsWith first.content "-") ∧
-              ¬ startsWith first.content "--- " ∧ ¬ startsWith first.content "+++ ")
+    (hfirst : startsWith first.content " " ∨ startsWith first.content "+" ∨ startsWith first.content "-")
     (hterm : first.newline ≠ .none) :
     ∃ info par',
       parseHeader { s := { rest := unifiedHeader old new oldt newt ++ ⟨rangeLineText h, .lf⟩ :: first :: more }, lineNo := lineNo } {} strip
@@ -48,13 +52,13 @@ theorem unified_header_roundtrip (old new oldt newt : Bytes) (h : Hunk) (first :
                info, par') ∧
       par'.s.rest = ⟨rangeLineText h, .lf⟩ :: first :: more ∧ par'.s.eof = false ∧ par'.s.bad = false := by
   have hb : Header.bodyStart first.content := by
-    rcases hfirst.1 with h1 | h1 | h1
+    rcases hfirst with h1 | h1 | h1
     · exact Or.inr (Or.inr h1)
     · exact Or.inl h1
     · exact Or.inr (Or.inl h1)
-  have hp := Header.parseHeader_unified strip
+  have hp := Header.parseHeader_unified' strip
     { s := { rest := unifiedHeader old new oldt newt ++ ⟨rangeLineText h, .lf⟩ :: first :: more }, lineNo := lineNo } {} []
-    old new oldt newt h first more (by simp) (by simp) hold hnew hot hnt hr hb hfirst.2.1 hfirst.2.2 hterm (Or.inl rfl) rfl rfl rfl rfl
+    old new oldt newt h first more (by simp) (by simp) hold hnew hot hnt hr hb hterm (Or.inl rfl) rfl rfl rfl rfl
   exact ⟨_, _, hp, rfl, rfl, rfl⟩
 
 /-- … and inert filler lines in front of the header change nothing (mail headers, commit messages, blank lines) -/
@@ -64,8 +68,7 @@ theorem unified_header_after_filler (filler : List Line) (old new oldt newt : By
     (hold : plainName old) (hnew : plainName new) (hot : oldt ≠ []) (hnt : newt ≠ [])
     (hr : 0 ≤ h.old.start ∧ h.old.start ≤ i64Max / 4 ∧ 0 ≤ h.old.count ∧ h.old.count ≤ i64Max / 4 ∧
           0 ≤ h.new.start ∧ h.new.start ≤ i64Max / 4 ∧ 0 ≤ h.new.count ∧ h.new.count ≤ i64Max / 4)
-    (hfirst : (startsWith first.content " " ∨ startsWith first.content "+" ∨ startsWith first.content "-") ∧
-              ¬ startsWith first.content "--- " ∧ ¬ startsWith first.content "+++ ")
+    (hfirst : startsWith first.content " " ∨ startsWith first.content "+" ∨ startsWith first.content "-")
     (hterm : first.newline ≠ .none) :
     ∃ info par',
       parseHeader { s := { rest := filler ++ unifiedHeader old new oldt newt ++ ⟨rangeLineText h, .lf⟩ :: first :: more }, lineNo := lineNo } {} strip
@@ -77,13 +80,13 @@ theorem unified_header_after_filler (filler : List Line) (old new oldt newt : By
                info, par') ∧
       par'.s.rest = ⟨rangeLineText h, .lf⟩ :: first :: more := by
   have hb : Header.bodyStart first.content := by
-    rcases hfirst.1 with h1 | h1 | h1
+    rcases hfirst with h1 | h1 | h1
     · exact Or.inr (Or.inr h1)
     · exact Or.inl h1
     · exact Or.inr (Or.inl h1)
-  have hp := Header.parseHeader_unified strip
+  have hp := Header.parseHeader_unified' strip
     { s := { rest := filler ++ unifiedHeader old new oldt newt ++ ⟨rangeLineText h, .lf⟩ :: first :: more }, lineNo := lineNo } {}
-    filler old new oldt newt h first more hin hft hold hnew hot hnt hr hb hfirst.2.1 hfirst.2.2 hterm (Or.inl rfl) rfl rfl rfl
+    filler old new oldt newt h first more hin hft hold hnew hot hnt hr hb hterm (Or.inl rfl) rfl rfl rfl
     (by simp only [unifiedHeader, List.append_assoc, List.cons_append, List.nil_append]; rfl)
   exact ⟨_, _, hp, rfl⟩
 
@@ -96,8 +99,7 @@ theorem unified_header_after_filler_forced (filler : List Line) (old new oldt ne
     (hold : plainName old) (hnew : plainName new) (hot : oldt ≠ []) (hnt : newt ≠ [])
     (hr : 0 ≤ h.old.start ∧ h.old.start ≤ i64Max / 4 ∧ 0 ≤ h.old.count ∧ h.old.count ≤ i64Max / 4 ∧
           0 ≤ h.new.start ∧ h.new.start ≤ i64Max / 4 ∧ 0 ≤ h.new.count ∧ h.new.count ≤ i64Max / 4)
-    (hfirst : (startsWith first.content " " ∨ startsWith first.content "+" ∨ startsWith first.content "-") ∧
-              ¬ startsWith first.content "--- " ∧ ¬ startsWith first.content "+++ ")
+    (hfirst : startsWith first.content " " ∨ startsWith first.content "+" ∨ startsWith first.content "-")
     (hterm : first.newline ≠ .none) :
     ∃ info par',
       parseHeader { s := { rest := filler ++ unifiedHeader old new oldt newt ++ ⟨rangeLineText h, .lf⟩ :: first :: more }, lineNo := lineNo }
@@ -111,16 +113,83 @@ theorem unified_header_after_filler_forced (filler : List Line) (old new oldt ne
       info.format = .unified ∧ info.linesTillFirstHunk = filler.length + 3 ∧
       par'.s.rest = ⟨rangeLineText h, .lf⟩ :: first :: more := by
   have hb : Header.bodyStart first.content := by
-    rcases hfirst.1 with h1 | h1 | h1
+    rcases hfirst with h1 | h1 | h1
     · exact Or.inr (Or.inr h1)
     · exact Or.inl h1
     · exact Or.inr (Or.inl h1)
-  have hp := Header.parseHeader_unified strip
+  have hp := Header.parseHeader_unified' strip
     { s := { rest := filler ++ unifiedHeader old new oldt newt ++ ⟨rangeLineText h, .lf⟩ :: first :: more }, lineNo := lineNo }
     { format := .unified }
-    filler old new oldt newt h first more hin hft hold hnew hot hnt hr hb hfirst.2.1 hfirst.2.2 hterm (Or.inr rfl) rfl rfl rfl
+    filler old new oldt newt h first more hin hft hold hnew hot hnt hr hb hterm (Or.inr rfl) rfl rfl rfl
     (by simp only [unifiedHeader, List.append_assoc, List.cons_append, List.nil_append]; rfl)
   exact ⟨_, _, hp, rfl, rfl, rfl⟩
+
+/-- NEW (`headerStep` looks for the first line of the first hunk BEFORE it looks for header keywords): the first line of the
+    first hunk may itself look like a file header — `--- x` removes the line `-- x`, `+++ y` adds the line `++ y`.  The
+    header is read back all the same: format unified, the names and time stamps of the two real header lines (NOT `x` / `y`),
+    first hunk on line 3, and the stream is left at the range line with clean flags, so that the body parser gets the whole
+    hunk.  Before the change the scan took such a line for a header line, went on, found no hunk after it and dropped the
+    first hunk silently (or, with more hunks following, patched with the wrong names). -/
+theorem first_hunk_line_like_header (old new oldt newt : Bytes) (h : Hunk) (first : Line) (more : List Line) (strip : Int) (lineNo : Nat)
+    (hold : plainName old) (hnew : plainName new) (hot : oldt ≠ []) (hnt : newt ≠ [])
+    (hr : 0 ≤ h.old.start ∧ h.old.start ≤ i64Max / 4 ∧ 0 ≤ h.old.count ∧ h.old.count ≤ i64Max / 4 ∧
+          0 ≤ h.new.start ∧ h.new.start ≤ i64Max / 4 ∧ 0 ≤ h.new.count ∧ h.new.count ≤ i64Max / 4)
+    (hfirst : startsWith first.content "--- " ∨ startsWith first.content "+++ ")
+    (hterm : first.newline ≠ .none) :
+    ∃ info par',
+      parseHeader { s := { rest := unifiedHeader old new oldt newt ++ ⟨rangeLineText h, .lf⟩ :: first :: more }, lineNo := lineNo } {} strip
+        = .ok (true,
+               { format := .unified, operation := inferredOp h,
+                 oldPath := if old = devNull then old else stripPath old strip,
+                 newPath := if new = devNull then new else stripPath new strip,
+                 oldTime := oldt, newTime := newt },
+               info, par') ∧
+      info.format = .unified ∧ info.linesTillFirstHunk = 3 ∧
+      par'.s.rest = ⟨rangeLineText h, .lf⟩ :: first :: more ∧ par'.s.eof = false ∧ par'.s.bad = false := by
+  have hb : Header.bodyStart first.content := by
+    rcases hfirst with h1 | h1
+    · exact Header.bodyStart_of_minus4 h1
+    · exact Header.bodyStart_of_plus4 h1
+  have hp := Header.parseHeader_unified' strip
+    { s := { rest := unifiedHeader old new oldt newt ++ ⟨rangeLineText h, .lf⟩ :: first :: more }, lineNo := lineNo } {} []
+    old new oldt newt h first more (by simp) (by simp) hold hnew hot hnt hr hb hterm (Or.inl rfl) rfl rfl rfl rfl
+  exact ⟨_, _, hp, rfl, rfl, rfl, rfl, rfl⟩
+
+-- the situation of the fix, evaluated: the first hunk removes the line `-- x` (and then adds a line `++ y`)
+#guard match parseHeader { s := { rest := [⟨str "--- a\t1", .lf⟩, ⟨str "+++ b\t2", .lf⟩, ⟨str "@@ -1,2 +1,2 @@", .lf⟩,
+                                           ⟨str "--- x", .lf⟩, ⟨str "+++ y", .lf⟩, ⟨str " z", .lf⟩] } } {} 0 with
+  | .ok (body, p, info, par') =>
+      body && p.format == .unified && p.oldPath == str "a" && p.newPath == str "b" && p.oldTime == str "1" &&
+      p.newTime == str "2" && p.operation == .change && info.format == .unified && info.linesTillFirstHunk == 3 &&
+      par'.s.rest.length == 4 && !par'.s.eof && !par'.s.bad &&
+      -- … and the body parser then gets the whole hunk: three lines, the first one the removal of `-- x`
+      (match parseBody par' p with
+       | .ok (p', par'') =>
+           par''.s.rest.length == 0 &&
+           (p'.hunks.map fun hk => hk.lines.map fun pl => (pl.op, pl.line.content)) ==
+             [[(45, str "-- x"), (43, str "++ y"), (32, str "z")]]
+       | _ => false)
+  | _ => false
+
+-- a kernel-checked instance of the theorem (`--- a⇥1` / `+++ b⇥2` / `@@ -1,2 +1 @@` / `--- x` / ` z`, -p0)
+example : ∃ info par',
+    parseHeader { s := { rest := unifiedHeader [97] [98] [49] [50] ++
+                    ⟨rangeLineText { defaultHunk with old := { start := 1, count := 2 }, new := { start := 1, count := 1 } }, .lf⟩ ::
+                    ⟨str "--- " ++ [120], .lf⟩ :: [⟨[32, 122], .lf⟩] }, lineNo := 1 } {} 0
+      = .ok (true, { format := .unified, operation := .change, oldPath := [97], newPath := [98], oldTime := [49], newTime := [50] },
+             info, par') ∧
+    info.format = .unified ∧ info.linesTillFirstHunk = 3 ∧ par'.s.rest.length = 3 := by
+  obtain ⟨info, par', hp, h1, h2, h3, _, _⟩ :=
+    first_hunk_line_like_header [97] [98] [49] [50]
+      { defaultHunk with old := { start := 1, count := 2 }, new := { start := 1, count := 1 } }
+      ⟨str "--- " ++ [120], .lf⟩ [⟨[32, 122], .lf⟩] 0 1
+      (by unfold plainName; decide) (by unfold plainName; decide) (by decide) (by decide) (by decide)
+      (Or.inl (Header.startsWith_append _ _)) (by decide)
+  refine ⟨info, par', ?_, h1, h2, by rw [h3]; rfl⟩
+  rw [hp, if_neg (by rw [Names.devNull_eq]; decide), if_neg (by rw [Names.devNull_eq]; decide),
+    show stripPath [97] 0 = [97] by simp [stripPath, stripLoop, SLASH],
+    show stripPath [98] 0 = [98] by simp [stripPath, stripLoop, SLASH],
+    show inferredOp { defaultHunk with old := { start := 1, count := 2 }, new := { start := 1, count := 1 } } = .change by decide]
 
 /-- NEW (the `diff --git` line always belongs to the header): a section whose first line is a `diff --git` line — if the header
     scan succeeds at all (the name on the line may be malformed: then it throws), the result is a git patch, the first-hunk line
@@ -145,4 +214,5 @@ end PatchModel.C11
 #print axioms PatchModel.C11.unified_header_roundtrip
 #print axioms PatchModel.C11.unified_header_after_filler
 #print axioms PatchModel.C11.unified_header_after_filler_forced
+#print axioms PatchModel.C11.first_hunk_line_like_header
 #print axioms PatchModel.C11.git_first_line_consumed
